@@ -193,3 +193,115 @@ Proof.
     eexists. eexists. split; [reflexivity|]. split; [reflexivity|].
     destruct (pair_of_minmax x y Hxy) as [[Ea Eb]|[Ea Eb]]; destruct Ho as [->| ->]; cbn [map]; rewrite Ea, Eb, !Nat2Z.id; assumption.
 Qed.
+
+(* ---- the whole transpiled circuit ---- *)
+(* pulse part: instruction i = closed-form pulse of its label, with the parameter values of gate i *)
+Fixpoint pulse_icirc (c : cfg) (gs : list ngate) (i : nat) : option icirc :=
+  match gs with
+  | [] => Some []
+  | g :: r =>
+      match compile_gate c g with
+      | Ok (CInstr _ [(lb, _)]) =>
+          match pulse_sgate c (g_name g) lb, pulse_icirc c r (S i) with
+          | Some sp, Some l => Some ((i, sp) :: l)
+          | _, _ => None end
+      | Ok _ => pulse_icirc c r (S i)                   (* GLOBALPHASE, IDLE: no pulse *)
+      | Err => None
+      end
+  end.
+(* gate part: the library matrix of every pulse-compiled gate on its targets (GLOBALPHASE is reported separately,
+   IDLE is the identity) *)
+Definition is_pulse_gate (g : ngate) : bool := existsb (String.eqb (g_name g)) pulse_gates.
+Fixpoint gate_icirc (gs : list ngate) (i : nat) : icirc :=
+  match gs with
+  | [] => []
+  | g :: r => (if is_pulse_gate g then match native_sgate g with Some sn => [(i, sn)] | None => [] end else [])
+              ++ gate_icirc r (S i)
+  end.
+
+Definition wf_circuit (c : cfg) (gs : list ngate) : Prop :=
+  Forall (fun g => if is_pulse_gate g then wf_pulse_gate c g else True) gs.
+
+Lemma is_pulse_gate_in g : is_pulse_gate g = true -> In (g_name g) pulse_gates.
+Proof.
+  unfold is_pulse_gate. rewrite existsb_exists. intros [x [Hx E]]. apply String.eqb_eq in E. subst x. exact Hx.
+Qed.
+
+Lemma assoc_in_filter {A} (f : A -> bool) name (l : list (string * A)) v :
+  SpinChain.assoc name l = Some v -> f v = true -> In name (map fst (filter (fun p => f (snd p)) l)).
+Proof.
+  induction l as [|[k w] l IH]; cbn [SpinChain.assoc]; [discriminate|].
+  destruct (String.eqb_spec name k) as [->|N].
+  - intros [= ->] Hf. cbn [filter snd]. rewrite Hf. left. reflexivity.
+  - intros H Hf. cbn [filter snd]. destruct (f w); [right|]; apply IH; assumption.
+Qed.
+
+Lemma not_pulse_no_pulses c g x : is_pulse_gate g = false -> compile_gate c g = Ok x ->
+  match x with CInstr _ ps => ps = [] | _ => True end.
+Proof.
+  intros Hn. unfold compile_gate. destruct (SpinChain.assoc (g_name g) gate_methods) as [m|] eqn:Ea; [|discriminate].
+  assert (Hm : match m with MRot _ _ | MSwap _ => False | _ => True end).
+  { destruct m; try exact I; exfalso;
+      (assert (In (g_name g) pulse_gates) by
+         (unfold pulse_gates; apply (assoc_in_filter (fun m => match m with MRot _ _ | MSwap _ => true | _ => false end) _ _ _ Ea); reflexivity);
+       unfold is_pulse_gate in Hn; apply Bool.not_true_iff_false in Hn; apply Hn; apply existsb_exists;
+       exists (g_name g); split; [assumption|apply String.eqb_refl]). }
+  destruct m; try contradiction.
+  - destruct (g_arg g); [intros [= <-]; exact I|discriminate].
+  - destruct (g_arg g); [intros [= <-]; reflexivity|discriminate].
+  - intros [= <-]. exact I.
+Qed.
+
+Lemma pulse_single c g x : is_pulse_gate g = true -> compile_gate c g = Ok x -> exists d lb co, x = CInstr d [(lb, co)].
+Proof.
+  intros Hp. apply is_pulse_gate_in in Hp. unfold compile_gate.
+  destruct (SpinChain.assoc (g_name g) gate_methods) as [[op pa|ar| | |]|] eqn:Ea; try discriminate.
+  - unfold rotation_compiler.
+    repeat match goal with |- rbind ?x _ = _ -> _ => destruct x; cbn [rbind]; [|discriminate] end.
+    intros [= <-]. eauto.
+  - unfold swap_compiler.
+    repeat match goal with |- rbind ?x _ = _ -> _ => destruct x; cbn [rbind]; [|discriminate] end.
+    intros [= <-]. eauto.
+  - exfalso. revert Hp Ea. unfold pulse_gates. cbn. intros [<-|[<-|[<-|[<-|[]]]]]; discriminate.
+  - exfalso. revert Hp Ea. unfold pulse_gates. cbn. intros [<-|[<-|[<-|[<-|[]]]]]; discriminate.
+  - exfalso. revert Hp Ea. unfold pulse_gates. cbn. intros [<-|[<-|[<-|[<-|[]]]]]; discriminate.
+Qed.
+
+Lemma sem_cons (R : PhaseRing) (g : gate R) (l : circ R) psi : sem (g :: l) psi = sem l (sem [g] psi).
+Proof. exact (sem_app R [g] l psi). Qed.
+
+Theorem pulses_are_gates c gs : setup_ok c -> wf_circuit c gs ->
+  forall p il ph i, compile_gates c gs p = Ok (il, ph) ->
+  exists pc, pulse_icirc c gs i = Some pc /\
+    forall (R : PhaseRing) (env : nat -> atoms R), sem (iden R env pc) = sem (iden R env (gate_icirc gs i)).
+Proof.
+  intros Hs. induction gs as [|g r IH]; intros Hwf p il ph i H.
+  - exists []. split; reflexivity.
+  - inversion Hwf as [|? ? Hg Hr]; subst. cbn [compile_gates] in H.
+    destruct (compile_gate c g) as [x|] eqn:Eg; cbn [rbind] in H; [|discriminate].
+    cbn [pulse_icirc gate_icirc]. rewrite Eg.
+    destruct (is_pulse_gate g) eqn:Ep.
+    + destruct (pulse_single c g x Ep Eg) as [d [lb [co ->]]].
+      destruct (compile_gates c r p) as [[il' ph']|] eqn:Er; cbn [rbind] in H; [|discriminate].
+      destruct (IH Hr _ _ _ (S i) Er) as [pc [Hpc Hsem]].
+      assert (Hex : forall (R : PhaseRing) (A : atoms R), exists sp sn, pulse_sgate c (g_name g) lb = Some sp /\
+                 native_sgate g = Some sn /\ sem [gden R A sp] = sem [gden R A sn])
+        by (intros R A; exact (instr_is_gate R A c g d lb co Hs Hg Eg)).
+      destruct (pulse_sgate c (g_name g) lb) as [sp|] eqn:Esp;
+        [|destruct (Hex KSProofs.PR_poly (mkAtoms _ (fun _ => k1 _) (fun _ => k1 _) (fun _ => ltac:(apply (Rmul_1_l (PR_ring _))))))
+            as [? [? [? _]]]; discriminate].
+      destruct (native_sgate g) as [sn|] eqn:Esn.
+      2:{ exfalso. admit. }
+      rewrite Hpc. exists ((i, sp) :: pc). split; [reflexivity|]. intros R env.
+      cbn [app iden map fst snd]. apply functional_extensionality; intro psi.
+      rewrite (sem_cons R _ (map _ pc)), (sem_cons R _ (map _ (gate_icirc r (S i)))).
+      destruct (Hex R (env i)) as [sp' [sn' [E1 [E2 E3]]]]. injection E1 as <-. injection E2 as <-. rewrite E3.
+      exact (f_equal (fun f => f _) (Hsem R env)).
+    + pose proof (not_pulse_no_pulses c g x Ep Eg) as Hx.
+      assert (Hrest : exists il' ph' p', compile_gates c r p' = Ok (il', ph')).
+      { destruct x as [d ps|a|]; [|eauto|eauto].
+        destruct (compile_gates c r p) as [[il' ph']|] eqn:Er; cbn [rbind] in H; [eauto|discriminate]. }
+      destruct Hrest as [il' [ph' [p' Er]]]. destruct (IH Hr _ _ _ (S i) Er) as [pc [Hpc Hsem]].
+      exists pc. split; [|exact Hsem].
+      destruct x as [d ps|a|]; [subst ps; exact Hpc|exact Hpc|exact Hpc].
+Abort.
